@@ -175,6 +175,39 @@ func H_C12_roundtrip(v *V) {
 	v.Assert(v.EqStr(d2.Inner.IS, d1.Inner.IS) && v.EqStr(d2.Cmd.CS, d1.Cmd.CS) && v.EqStrs(d2.Cmd.CL, d1.Cmd.CL) && v.EqStr(d2.Cmd.CG.GS, d1.Cmd.CG.GS), "options of nested groups and commands are reproduced exactly")
 }
 
+// H_C12_long: values longer than the reader's line buffer round-trip.
+func H_C12_long(v *V) {
+	L := v.Shape("L")
+	fill := make([]byte, L)
+	for i := range fill {
+		fill[i] = byte('a' + i%23)
+		if i%9 == 8 {
+			fill[i] = ' '
+		}
+	}
+	tail := v.String(1)
+	p1, d1 := c12Parser()
+	p1.ParseArgs(nil)
+	d1.S = "s" + string(fill) + tail
+	d1.L = []string{"l" + string(fill) + "z", "y"}
+	var buf bytes.Buffer
+	NewIniParser(p1).Write(&buf, IniNone)
+	p2, d2 := c12Parser()
+	err := NewIniParser(p2).Parse(bytes.NewReader(buf.Bytes()))
+	if err == nil {
+		_, err = p2.ParseArgs(nil)
+	}
+	vObsErr(v, err)
+	v.Assert(err == nil, "the written text is read back without error")
+	if err != nil {
+		return
+	}
+	v.Reach("read-back")
+	v.Assert(len(d2.S) == len(d1.S) && v.EqStr(d2.S, d1.S), "a long string value is reproduced exactly")
+	v.Assert(v.EqStrs(d2.L, d1.L), "long slice elements are reproduced exactly")
+}
+
 func init() {
+	vHarnesses["H_C12_long"] = H_C12_long
 	vHarnesses["H_C12_roundtrip"] = H_C12_roundtrip
 }
